@@ -24,6 +24,7 @@
 (*                 subscriber; NOT validated by managedServiceValidator)   *)
 (*   AddCheck / DeleteCheck   didman handler up to and including           *)
 (*                 Manager.Update's validation: reads the documents        *)
+(*                 (verdicts: AddVerdict / DeleteVerdict)                  *)
 (*   OpWrite       Manager.Update publishes + stores the next version      *)
 (*   GetCompound   didman.GetCompoundServiceEndpoint                       *)
 (* didman serialises handlers per DID (keyedMutex), not globally.          *)
@@ -268,7 +269,8 @@ OpWrite(p) ==
     /\ ops[p].pc = "checked"
     /\ docs' = [docs EXCEPT ![ops[p].d] = ops[p].nd]
     /\ broken' = broken \cup (Unresolvable(docs') \ Unresolvable(docs))
-    /\ ops' = [ops EXCEPT ![p] = [pc |-> "done", kind |-> @.kind, c |-> @.c, d |-> @.d, v |-> "ok", causes |-> {}]]
+    /\ ops' = [ops EXCEPT ![p] = [pc |-> "done", kind |-> @.kind, c |-> @.c, d |-> @.d, v |-> "ok", causes |-> {},
+                                  was |-> docs[@.d]]]      \* history: the replaced version (keeps behaviours with different pasts apart)
     /\ Log([a |-> "Write", p |-> p, d |-> ops[p].d, old |-> DocJ(docs[ops[p].d]), new |-> DocJ(ops[p].nd)])
     /\ UNCHANGED <<rs, nops, nnet>>
 
